@@ -206,18 +206,17 @@ fn round_quot(
 #[doc(hidden)]
 #[must_use]
 pub fn i128_div_rounded(
-    mut divident: i128,
-    mut divisor: i128,
+    divident: i128,
+    divisor: i128,
     mode: Option<RoundingMode>,
 ) -> i128 {
-    if divisor < 0 {
-        divident = -divident;
-        divisor = -divisor;
-    }
     let (quot, rem) = i128_div_mod_floor(divident, divisor);
-    // div_mod_floor with divisor > 0 => rem >= 0
+    // div_mod_floor => rem is zero or has the sign of divisor and
+    // |rem| < |divisor|, i.e. divident / divisor = quot + |rem| / |divisor|
+    // (no negation of the operands, i128::MIN can not be negated)
     // |quot| <= |divident| / 2 if rem != 0, so rounding can not overflow
-    match round_quot(quot, rem as u128, divisor as u128, mode) {
+    match round_quot(quot, rem.unsigned_abs(), divisor.unsigned_abs(), mode)
+    {
         Some(res) => res,
         None => unreachable!(),
     }
@@ -228,18 +227,16 @@ pub fn i128_div_rounded(
 #[doc(hidden)]
 #[must_use]
 pub fn i128_shifted_div_rounded(
-    mut divident: i128,
+    divident: i128,
     p: u8,
-    mut divisor: i128,
+    divisor: i128,
     mode: Option<RoundingMode>,
 ) -> Option<i128> {
-    if divisor < 0 {
-        divident = -divident;
-        divisor = -divisor;
-    }
     let (quot, rem) = i128_shifted_div_mod_floor(divident, p, divisor)?;
-    // div_mod_floor with divisor > 0 => rem >= 0
-    round_quot(quot, rem as u128, divisor as u128, mode)
+    // div_mod_floor => rem is zero or has the sign of divisor and
+    // |rem| < |divisor| (no negation of the operands, i128::MIN can not be
+    // negated)
+    round_quot(quot, rem.unsigned_abs(), divisor.unsigned_abs(), mode)
 }
 
 /// Divide 'x * y' by '10^p' and round result according to 'mode'.
